@@ -29,6 +29,14 @@ FUNC_KINDS = {'MaxConstraint': 'max', 'MinConstraint': 'min', 'AbsConstraint': '
               'OrConstraint': 'or', 'NotConstraint': 'not', 'DivConstraint': 'div', 'IfThenConstraint': 'ifthen',
               'ImplicationConstraint': 'impl', 'AllDiffConstraint': 'alldiff', 'NumberofConstConstraint': 'nofc',
               'NumberofVarConstraint': 'nofv', 'CountConstraint': 'count'}
+# evaluated with libm: outside the exact model, observed through a floating-point oracle only
+TRANSC = {'ExpConstraint': 'exp', 'ExpAConstraint': 'expa', 'LogConstraint': 'log', 'LogAConstraint': 'loga',
+          'SinConstraint': 'sin', 'CosConstraint': 'cos', 'TanConstraint': 'tan', 'AsinConstraint': 'asin',
+          'AcosConstraint': 'acos', 'AtanConstraint': 'atan', 'SinhConstraint': 'sinh', 'CoshConstraint': 'cosh',
+          'TanhConstraint': 'tanh', 'AsinhConstraint': 'asinh', 'AcoshConstraint': 'acosh', 'AtanhConstraint': 'atanh'}
+TFUN = {'exp': math.exp, 'log': math.log, 'sin': math.sin, 'cos': math.cos, 'tan': math.tan, 'asin': math.asin,
+        'acos': math.acos, 'atan': math.atan, 'sinh': math.sinh, 'cosh': math.cosh, 'tanh': math.tanh,
+        'asinh': math.asinh, 'acosh': math.acosh, 'atanh': math.atanh}
 ALG_KINDS = {'Range': 'range', 'LT': 'lt', 'LE': 'le', 'EQ': 'eq', 'GE': 'ge', 'GT': 'gt'}
 
 
@@ -187,6 +195,13 @@ class Flat:
             if k == 'nofv':
                 return ('func', d['res'], d['ctx'], (k, args[0], args[1:]))
             return ('func', d['res'], d['ctx'], (k, args))
+        if tn == 'PowConstraint':
+            ex = fin(fr(d['params'][0]))
+            if ex.denominator != 1 or ex < 0 or ex > 8:
+                return ('tfunc', d['res'], d['ctx'], ('powc', d['args'], [float(ex)]))
+            return ('func', d['res'], d['ctx'], ('pow', d['args'], int(ex)))
+        if tn in TRANSC:
+            return ('tfunc', d['res'], d['ctx'], (TRANSC[tn], d['args'], [float(fin(fr(t))) for t in d.get('params', [])]))
         if tn == 'PLConstraint':
             pr = d['params']
             pts = [(fin(fr(a)), fin(fr(b))) for a, b in zip(pr['x'], pr['y'])]
@@ -236,6 +251,8 @@ class Flat:
                 fs = 'div %d %d' % (f[1][0], f[1][1])
             elif fk in ('ifthen', 'impl'):
                 fs = '%s %d %d %d' % (fk, f[1][0], f[1][1], f[1][2])
+            elif fk == 'pow':
+                fs = 'pow %d %d' % (f[1][0], f[2])
             elif fk == 'pl':
                 fs = 'pl %d %s %d' % (len(f[2]), ' '.join('%s %s' % (rstr(a), rstr(b)) for a, b in f[2]), f[1][0])
             elif fk == 'nofc':
@@ -245,6 +262,8 @@ class Flat:
             else:
                 fs = '%s %d %s' % (fk, len(f[1]), ' '.join(map(str, f[1])))
             return 'func %d %s %s' % (c[1], c[2], fs)
+        if k == 'tfunc':
+            raise Unsupported('transcendental:' + c[3][0])
         if k == 'adef':
             return 'adef %d %s %s' % (c[1], c[2], c[3][1].ops())
         if k == 'cond':
@@ -309,6 +328,8 @@ class Flat:
             return F(sum(1 for i in f[1] if x[i] >= F(1, 2)))
         if k == 'pl':
             return pl_points_value(f[2], x[f[1][0]])
+        if k == 'pow':
+            return x[f[1][0]] ** f[2]
         raise Unsupported(k)
 
     def con_vars(self, c):
@@ -332,6 +353,50 @@ class Flat:
             return None
         return it['con']
 
+    def float_point(self, xorig):
+        """double values of all variables: originals as given, defined variables by evaluating their expression with
+        python's libm (the C++ uses the same libm), others at their lower bound; None if not computable"""
+        n = len(self.vars)
+        x = [None] * n
+        state = [0] * n
+
+        def val(i):
+            if state[i] == 2:
+                return True
+            if state[i] == 1:
+                return False
+            state[i] = 1
+            v = self.vars[i]
+            if v['orig']:
+                x[i] = float(xorig[i])
+            else:
+                init = v['init']
+                it = self.keepers[init['short']]['items'][init['i']] if init else None
+                d = it['con'] if it is not None and not it['unused'] and it['con'][0] in ('func', 'adef', 'tfunc', 'cond') else None
+                if d is None:
+                    x[i] = float(v['lb']) if v['lb'] != -INF else (float(v['ub']) if v['ub'] != INF else 0.0)
+                else:
+                    args = item_vars(d)[1:]
+                    for j in args:
+                        if not val(j):
+                            return False
+                    try:
+                        if d[0] == 'tfunc':
+                            nm, a, pr = d[3]
+                            t = x[a[0]]
+                            x[i] = (pr[0] ** t if nm == 'expa' else math.log(t) / math.log(pr[0]) if nm == 'loga'
+                                    else t ** pr[0] if nm == 'powc' else TFUN[nm](t))
+                        else:
+                            x[i] = float(self.math_value(d, [None if t is None else F(t) for t in x]))
+                    except (Unsupported, ValueError, OverflowError, ZeroDivisionError):
+                        return False
+            state[i] = 2
+            return True
+        for i in range(n):
+            if not val(i):
+                return None
+        return x
+
     def best_def(self, i):
         """the expression that gives variable i its mathematical value: among the not-unused functional constraints
         with result i the one closest to the NL model (smallest depth); a variable redefined during conversion (e.g.
@@ -339,7 +404,7 @@ class Flat:
         if not hasattr(self, '_by_res'):
             self._by_res = {}
             for it in self.items:
-                if not it['unused'] and it['con'][0] in ('func', 'cond', 'adef'):
+                if not it['unused'] and it['con'][0] in ('func', 'cond', 'adef', 'tfunc'):
                     self._by_res.setdefault(it['con'][1], []).append(it)
         cands = self._by_res.get(i)
         if not cands:
@@ -374,8 +439,8 @@ class Flat:
                     x[i] = F(0)
                 elif lb == -INF:
                     x[i] = F(ub)
-                elif ub == INF or rng is None or rng.chance(2, 3):
-                    x[i] = F(lb)
+                elif ub == INF or ub > 2 ** 40 or rng is None or rng.chance(2, 3):
+                    x[i] = F(lb)            # (huge 'practically infinite' bounds would swamp double arithmetic)
                 else:
                     x[i] = F(ub)
             else:
@@ -437,7 +502,21 @@ def g1_alts(fmax, val, name):
     return out
 
 
-def text_matches(obs_text, ideal, real):
+def has_nondyadic(f):
+    """does the flat model contain constants that are not small dyadic rationals (strict-inequality epsilons, big-M products
+    introduced by the conversion)?  Then double arithmetic in the C++ is not exact and near-ties can resolve differently."""
+    def nd(q):
+        q = F(q)
+        d = q.denominator
+        return d & (d - 1) != 0 or d > 2 ** 30
+    for it in f.items:
+        for t in re.findall(r'"(-?\d+)\*2\^(-?\d+)"', json.dumps(it['data'])):
+            if int(t[1]) < -30:
+                return True
+    return False
+
+
+def text_matches(obs_text, ideal, real, name_ties=False):
     """observed report text vs model lines, numbers compared up to the rounding-boundary allowance of g1_alts"""
     exp = expected_text(ideal, real)
     if obs_text is None or exp is None:
@@ -465,6 +544,8 @@ def text_matches(obs_text, ideal, real):
                     row = '*' + row[1:]
                 if row.rstrip() == o:
                     ok = True
+                elif name_ties and re.sub(r'\[[^\]]*\]', '[]', row.rstrip()) == re.sub(r'\[[^\]]*\]', '[]', o):
+                    ok = True                 # same numbers, another item named: a near-tie between inexact doubles
         if not ok:
             return False
     return True
@@ -536,9 +617,9 @@ class Gen:
         r = self.r
         nt = nt or r.rint(1, 3)
         terms = []
-        for _ in range(nt):
+        for j in sorted({r.below(len(m.vars)) for _ in range(nt)}):      # distinct variables: no cancelling terms
             c = r.choice([F(1), F(-1), F(2), F(1, 2), F(-2), F(3)])
-            terms.append(('*', ('n', c), ('v', r.below(len(m.vars)))))
+            terms.append(('*', ('n', c), ('v', j)))
         e = terms[0]
         for t in terms[1:]:
             e = ('+', e, t)
@@ -559,6 +640,14 @@ class Gen:
             return (k, [self.num(m, xs, depth - 1) for _ in range(r.rint(2, 3))])
         if k == 'mul':
             return ('*', self.num_leaf(m, xs), self.num_leaf(m, xs))
+        if k in ('absmul', 'maxmul'):
+            # a product nested in another expression becomes a QuadraticFunctionalConstraint
+            pr = ('*', ('v', r.below(len(m.vars))), ('v', r.below(len(m.vars))))
+            if r.chance(1, 2):
+                pr = ('+', pr, self.lin(m, xs, 1))
+            return ('abs', pr) if k == 'absmul' else ('max', [pr, self.lin(m, xs, 1)])
+        if k == 'pow3':
+            return ('pow', ('v', r.below(len(m.vars))), ('n', F(3)))
         if k == 'if':
             return ('if', self.log(m, xs, depth - 1), self.num(m, xs, depth - 1), self.num(m, xs, depth - 1))
         if k == 'count':
@@ -567,11 +656,17 @@ class Gen:
             ints = [j for j, v in enumerate(m.vars) if v['int']]
             if len(ints) < 2:
                 return self.lin(m, xs)
-            v0 = ('n', F(r.rint(0, 2))) if r.chance(1, 2) else ('v', r.choice(ints))
-            return ('numberof', v0, [('v', r.choice(ints)) for _ in range(r.rint(2, 3))])
+            lst = [r.choice(ints) for _ in range(r.rint(2, 3))]
+            if r.chance(1, 3):
+                lst.append(r.below(len(m.vars)))           # possibly a continuous variable: matched by tolerance
+            if r.chance(1, 2):
+                v0 = ('n', xs[r.choice(lst)] if r.chance(2, 3) else F(r.rint(0, 2)))     # often a value that occurs
+            else:
+                v0 = ('v', r.choice(ints))
+            return ('numberof', v0, [('v', j) for j in lst])
         if k == 'div':
             # divisor: a variable whose planted value is non-zero
-            cand = [j for j in range(len(m.vars)) if xs[j] != 0]
+            cand = [j for j in range(len(m.vars)) if abs(xs[j]) in (F(1, 4), F(1, 2), F(1), F(2), F(4))]   # quotients stay dyadic
             if not cand:
                 return self.lin(m, xs)
             return ('/', self.num_leaf(m, xs), ('v', r.choice(cand)))
@@ -641,9 +736,16 @@ class Gen:
         r = self.r
         m = nlgen.Model()
         nv = r.rint(2, self.profile.get('maxvars', 5))
+        minint = self.profile.get('minint', 0)
+        nv = max(nv, minint + 1)
         xs = []
         for j in range(nv):
-            integer = r.chance(2, 5)
+            integer = r.chance(2, 5) or j < minint
+            if j < minint:
+                lo, hi = 0, 3
+                m.var(lo, hi, True)
+                xs.append(F(r.rint(lo, hi)))
+                continue
             if integer:
                 lo, hi = (0, 1) if r.chance(1, 2) else (r.rint(-3, 0), r.rint(1, 5))
                 xv = F(r.rint(lo, hi))
@@ -653,7 +755,12 @@ class Gen:
                 xv = F(r.rint(int(lo * GRID), int(hi * GRID)), GRID)
                 if r.chance(1, 6):
                     xv = lo if r.chance(1, 2) else hi          # active bound
-                m.var(lo, hi, False)
+                if self.profile.get('freevars') and r.chance(1, 4):
+                    t = r.below(3)                             # one-sided / free variable (infinite bound)
+                    m.var(None if t != 1 else lo, None if t != 0 else hi, False)
+                    self.hit('freevar')
+                else:
+                    m.var(lo, hi, False)
             xs.append(xv)
         ncon = r.rint(*self.profile.get('ncons', (1, 3)))
         for _ in range(ncon):
@@ -711,7 +818,24 @@ class Gen:
         if not m.cons and not m.lcons:
             m.con(None, xs[0] + xs[-1] + 1, {0: F(1), nv - 1: F(1)} if nv > 1 else {0: F(2)})
         m.has_sos = False
-        if self.profile.get('sos') and r.chance(1, 3):
+        if self.profile.get('compl') and r.chance(*self.profile['compl']):
+            # body complements a fresh variable z in [0, hi]: z at lb & body >= 0, z at ub & body <= 0, or z inside & body = 0
+            hi = r.rint(1, 4)
+            z = m.var(0, hi, False)
+            lin = {j: r.choice([F(1), F(-1), F(2), F(1, 2)]) for j in sorted({r.below(nv) for _ in range(r.rint(1, 2))})}
+            b0 = sum(c * xs[j] for j, c in lin.items())
+            t = r.below(3)
+            if t == 0:
+                xs.append(F(0)); const = -b0 + r.choice([F(0), F(1, 2), F(2)])
+            elif t == 1:
+                xs.append(F(hi)); const = -b0 - r.choice([F(0), F(1, 2), F(2)])
+            else:
+                xs.append(F(hi, 2)); const = -b0
+            m.con(None, None, lin, ('n', const))
+            m.cons[-1]['compl'] = (z, 3)
+            m.has_sos = True                 # (the NL-level evaluator knows nothing about complementarity either)
+            self.hit('compl:%d' % t)
+        if self.profile.get('sos') and r.chance(*self.profile.get('p_sos', (1, 3))):
             # an SOS1/SOS2 set over fresh non-negative variables (.sosno/.ref suffixes); planted point respects it
             k = r.rint(2, 4)
             typ = r.choice([1, 2])
@@ -735,13 +859,23 @@ class Gen:
 
 
 PROFILES = {
-    'linear': {'num': [], 'rel': [], 'log': [], 'ncons': (1, 4), 'nlcons': (0, 0), 'sos': True},
+    'linear': {'num': [], 'rel': [], 'log': [], 'ncons': (1, 4), 'nlcons': (0, 0), 'sos': True, 'freevars': True},
     'logic': {'num': [], 'rel': ['le', 'ge', 'lt', 'gt', 'eq', 'ne'], 'log': ['or', 'and', 'not', 'implies', 'iff', 'forall', 'exists'],
               'ncons': (0, 2), 'nlcons': (1, 3), 'depth': 2},
     'expr': {'num': ['abs', 'min', 'max', 'if', 'sum', 'count'], 'rel': ['le', 'ge', 'eq', 'lt'], 'log': ['or', 'and', 'not'],
              'ncons': (1, 3), 'nlcons': (0, 1), 'depth': 2, 'p_nl': (3, 4)},
     'pl': {'num': ['pl', 'pl', 'pl', 'abs', 'sum'], 'rel': ['le', 'ge', 'eq'], 'log': ['or', 'and'],
            'ncons': (1, 3), 'nlcons': (0, 1), 'depth': 2, 'p_nl': (1, 1)},
+    # focus profiles: one flat type each, so that every evaluator / violation measure is visited in every run
+    'f_div': {'num': ['div'], 'rel': ['le', 'ge'], 'log': ['or'], 'ncons': (1, 2), 'nlcons': (0, 0), 'depth': 1, 'p_nl': (1, 1)},
+    'f_numberof': {'num': ['numberof'], 'rel': ['le', 'ge'], 'log': ['or'], 'ncons': (1, 2), 'nlcons': (0, 0), 'depth': 1, 'p_nl': (1, 1), 'minint': 3},
+    'f_alldiff': {'num': [], 'rel': ['le', 'ge', 'eq'], 'log': ['alldiff', 'alldiff', 'not'], 'ncons': (0, 1), 'nlcons': (1, 2), 'depth': 1, 'minint': 3},
+    'f_count': {'num': ['count'], 'rel': ['le', 'ge', 'eq', 'lt', 'gt', 'ne'], 'log': ['atleast', 'atmost', 'exactly', 'notatleast', 'notatmost', 'notexactly'],
+                'ncons': (0, 2), 'nlcons': (1, 2), 'depth': 1, 'p_nl': (1, 1)},
+    'f_qfc': {'num': ['absmul', 'maxmul', 'mul', 'pow3'], 'rel': ['le', 'ge'], 'log': ['or'], 'ncons': (1, 3), 'nlcons': (0, 0), 'depth': 1, 'p_nl': (1, 1)},
+    'f_if': {'num': ['if', 'min', 'max'], 'rel': ['le', 'ge', 'lt', 'gt', 'eq'], 'log': ['implies', 'iff', 'and'], 'ncons': (1, 2), 'nlcons': (1, 2), 'depth': 2, 'p_nl': (1, 1)},
+    'f_sos': {'num': [], 'rel': [], 'log': [], 'ncons': (1, 2), 'nlcons': (0, 0), 'sos': True, 'p_sos': (1, 1)},
+    'f_compl': {'num': [], 'rel': [], 'log': [], 'ncons': (1, 2), 'nlcons': (0, 0), 'compl': (1, 1)},
     'mixed': {'num': ['abs', 'min', 'max', 'if', 'count', 'numberof', 'mul', 'div', 'sum', 'pl'],
               'rel': ['le', 'ge', 'lt', 'gt', 'eq', 'ne'],
               'log': ['or', 'and', 'not', 'implies', 'iff', 'forall', 'exists', 'alldiff', 'atleast', 'atmost', 'exactly'],
@@ -959,9 +1093,9 @@ class Runner:
         os.makedirs(work)
         self.n = 0
 
-    def write_model(self, m, tag):
+    def write_model(self, m, tag, names=True):
         stub = os.path.join(self.work, tag)
-        m.write(stub)
+        m.write(stub, names=names)
         return stub
 
     def exec_case(self, c):
@@ -969,9 +1103,13 @@ class Runner:
         cid = c['id']
         stub = os.path.join(self.work, 'r%05d' % cid)
         for ext in ('.nl', '.col', '.row'):
-            shutil.copyfile(c['stub'] + ext, stub + ext)
+            if os.path.exists(c['stub'] + ext):
+                shutil.copyfile(c['stub'] + ext, stub + ext)
         script = None
-        if c.get('xs') is not None:
+        if c.get('noprimal'):
+            script = stub + '.script'
+            rs.write_script(script, code=c.get('code', 0))          # status only: the 'solver' returns no point
+        elif c.get('xs') is not None:
             script = stub + '.script'
             rs.write_script(script, code=c.get('code', 0), x=[float(v) for v in c['xs']],
                             obj=[float(v) for v in c['objv']] if c.get('objv') is not None else None)
@@ -1007,6 +1145,8 @@ class Runner:
                 continue
             try:
                 L = f.model_ops() + [f.opts_ops(), f.check_ops(c.get('code', 0))]
+                if getattr(self, 'arms', None) is not None:
+                    L.append('arms' + L[-1][5:])
             except Unsupported as u:
                 f.supported = False
                 f.why = str(u)
@@ -1024,6 +1164,15 @@ class Runner:
                     continue
                 seg = out[sp[0]:sp[0] + sp[1]]
                 c['ops'] = ops[sp[0]:sp[0] + sp[1]]
+                if getattr(self, 'arms', None) is not None and len(seg) == sp[1]:
+                    for a in seg[-1].split(';;'):
+                        for comp in a.split('|'):
+                            self.arms[comp] = self.arms.get(comp, 0) + 1
+                        if a.count('|') == 2 and a.split('|')[1] in ('var-bounds', 'aux-bounds', 'var-int', 'aux-int', 'obj'):
+                            k = a.split('|')[1] + '|' + a.split('|')[2]
+                            self.arms[k] = self.arms.get(k, 0) + 1
+                    seg = seg[:-1]
+                    sp = (sp[0], sp[1] - 1)
                 if len(seg) < sp[1] or any(s != 'ok' for s in seg[:-1]):
                     bad = next((i for i, s in enumerate(seg[:-1]) if s != 'ok'), None)
                     c['model'] = {'error': 'driver rejected op: %s' % (c['ops'][bad] if bad is not None else 'short output')}
@@ -1069,7 +1218,9 @@ def replay_obj(c, extra=None):
     o = {'family': c.get('family'), 'profile': c.get('profile'), 'accept': c.get('accept'), 'options': c.get('cmd_options'),
          'x': [rstr(v) for v in c['xs']] if c.get('xs') is not None else None,
          'obj': [rstr(v) for v in c['objv']] if c.get('objv') is not None else None, 'code': c.get('code', 0),
-         'nl': open(c['stub'] + '.nl').read(), 'col': open(c['stub'] + '.col').read(), 'row': open(c['stub'] + '.row').read(),
+         'nl': open(c['stub'] + '.nl').read(),
+         'col': open(c['stub'] + '.col').read() if os.path.exists(c['stub'] + '.col') else None,
+         'row': open(c['stub'] + '.row').read() if os.path.exists(c['stub'] + '.row') else None,
          'how': './check C07 --replay <this file>   (re-runs harness/c07 on the stored model/point/options and prints report, model prediction and oracle)'}
     if extra:
         o.update(extra)
@@ -1080,6 +1231,13 @@ def replay_obj(c, extra=None):
 def model_point(m, xflat):
     """values of the original variables in nlgen-model order from a flat vector (flat original vars are in NL order)"""
     return [F(xflat[m.pos[j]]) for j in range(len(m.vars))]
+
+
+def fbnd(v):
+    """finite sampling range of a flat variable"""
+    lo = F(v['lb']) if v['lb'] != -INF else F(-4)
+    hi = F(v['ub']) if v['ub'] != INF else F(6)
+    return lo, hi
 
 
 def gen_points(rng, m, xs_model, flat, opts):
@@ -1126,7 +1284,7 @@ def gen_points(rng, m, xs_model, flat, opts):
             xo[j] = base + rng.choice([F(1, 2), F(1, 4), -F(1, 4), tol, F(1, 1024), F(3, 8)])
             fam = 'integrality'
         else:
-            lo, hi = int(F(v['lb']) * GRID), int(F(v['ub']) * GRID)
+            lo, hi = int(fbnd(v)[0] * GRID), int(fbnd(v)[1] * GRID)
             xo[j] = F(rng.rint(lo, hi), 1 if v['int'] else GRID) if not v['int'] else F(rng.rint(int(v['lb']), int(v['ub'])))
             fam = 'move-one'
         add(fam, xo)
@@ -1137,7 +1295,7 @@ def gen_points(rng, m, xs_model, flat, opts):
         if v['int']:
             xo.append(F(rng.rint(int(v['lb']), int(v['ub']))))
         else:
-            xo.append(F(rng.rint(int(F(v['lb']) * GRID), int(F(v['ub']) * GRID)), GRID))
+            xo.append(F(rng.rint(int(fbnd(v)[0] * GRID), int(fbnd(v)[1] * GRID)), GRID))
     add('random-orig', xo)
     # boundary of one constraint (linear bodies): shift a continuous variable so that the violation is exactly delta
     cont = [j for j in range(nv) if not m.vars[j]['int']]
@@ -1182,7 +1340,7 @@ def gen_points(rng, m, xs_model, flat, opts):
             elif v['int']:
                 xo.append(F(rng.rint(int(v['lb']), int(v['ub']))))
             else:
-                xo.append(F(rng.rint(int(F(v['lb']) * GRID), int(F(v['ub']) * GRID)), GRID))
+                xo.append(F(rng.rint(int(fbnd(v)[0] * GRID), int(fbnd(v)[1] * GRID)), GRID))
         return xo
     for _ in range(min(4, len(conds) + 1) if conds else 0):
         it = rng.choice(conds)
@@ -1320,6 +1478,8 @@ def item_vars(con):
     k = con[0]
     if k == 'alg':
         return con[1]['body'].vars()
+    if k == 'tfunc':
+        return [con[1]] + list(con[3][1])
     if k in ('func', 'adef'):
         f = con[3]
         if f[0] == 'affine':
@@ -1443,6 +1603,19 @@ def flip_oracle(c):
     return {'expect': bool(bad), 'kind': 'flip-violated' if bad else 'flip-clean', 'detail': bad[:6]}
 
 
+def unused_fixed_roots(f):
+    """functional constraints that are marked unused although their result variable is fixed (lb == ub): a root-level
+    logical constraint whose defining expression was dropped during conversion (inlined into an enclosing and/or, marked
+    unused, then found again through the expression map) - neither delivered to the solver nor looked at by the check"""
+    out = []
+    for it in f.items:
+        if it['unused'] and it['con'][0] in ('func', 'cond'):
+            v = f.vars[it['con'][1]]
+            if v['lb'] == v['ub'] and not v['orig']:
+                out.append(it['name'] or it['type'])
+    return out
+
+
 def int_sig(c, detail):
     """signature for an unreported integrality violation: does every violating variable round to a non-zero integer?"""
     xo = model_point(c['m'], c['xs'])
@@ -1468,15 +1641,24 @@ EXPECT_THEOREMS = 33
 
 def run(ck):
     t0 = time.time()
-    proof_ok, failing = proof_stage(ck)
-    exe = build_solver(ck)
+    coverage = os.environ.get('VERIF_COVERAGE') == '1'
+    if coverage:
+        # coverage mode (not part of the normal tiers): same input stream through a --coverage build of the harness
+        proof_ok, failing = True, []
+        ck.cov.update({'obligations': 0, 'discharged': 0, 'checker_cmd': 'VERIF_COVERAGE=1: proof stage skipped'})
+        exe = build_cov_solver(ck)
+    else:
+        proof_ok, failing = proof_stage(ck)
+        exe = build_solver(ck)
     drv = ck.driver('drv_c07')
     ck.log('harness + driver ready')
     t0 = time.time()            # the budget is for the correspondence stage
     work = os.path.join(BUILD, 'c07work')
     R = Runner(ck, exe, drv, work)
+    if coverage:
+        R.arms = {}
     rng = Rng(ck.seed * 7919 + 17)
-    nmodels = 72 if ck.tier == 'quick' else 900
+    nmodels = 96 if ck.tier == 'quick' else 960
     budget = 70 if ck.tier == 'quick' else 600
     stats = {'runs': 0, 'compared': 0, 'unsupported': 0, 'no_check': 0, 'outside_fragment': 0, 'oracle_applied': 0,
              'oracle_expect_report': 0, 'oracle_expect_clean': 0, 'reports_seen': 0, 'code150_seen': 0, 'skipped_seen': 0}
@@ -1484,8 +1666,10 @@ def run(ck):
             'classes': {}, 'unsupported_why': {}, 'code_class_checked': {}, 'code_class_no_check': {}, 'flip': {}}
     corr_bad, oracle_bad = [], []
     distinct = set()
+    dropped_inexact = [0]
     cid = 0
-    profiles = ['linear', 'linear', 'logic', 'expr', 'mixed', 'pl', 'mixed', 'pl']
+    profiles = ['linear', 'logic', 'expr', 'mixed', 'pl', 'f_div', 'f_numberof', 'f_alldiff', 'linear', 'mixed', 'pl', 'f_count',
+                'f_qfc', 'f_if', 'f_sos', 'f_compl']
     mi = 0
     corpus_cases = load_corpus(R)
     batches = []
@@ -1518,8 +1702,11 @@ def run(ck):
             m, xs = g.model()
             for k, v in g.hist.items():
                 hist['gen'][k] = hist['gen'].get(k, 0) + v
-            stub = R.write_model(m, 'm%04d' % mi)
             accept = None if prof == 'linear' and rng.chance(1, 2) else rng.choice(ACCEPT_SETS)
+            if prof.startswith('f_') and rng.chance(2, 3):
+                accept = 'ALL'                    # focus profiles: the type is delivered natively, its evaluator runs
+            names = not rng.chance(1, 8)          # sometimes no .col/.row files: items have no names
+            stub = R.write_model(m, 'm%04d' % mi, names)
             base = []
             if rng.chance(1, 6):
                 base.append('cvt:pre:all=0')
@@ -1535,8 +1722,8 @@ def run(ck):
         cases = []
         for lc in learn:
             f = lc['flat']
-            if f is None or not f.supported or lc.get('model') is None or 'status' in (lc['model'] or {}):
-                continue
+            if f is None or not f.supported:
+                continue            # (the learning run itself may be outside the fragment, e.g. x = 0 divides by zero)
             for _ in range(2 if ck.tier == 'quick' else 3):
                 opts = gen_options(rng, 'pts')
                 if lc['profile'] != 'linear' and rng.chance(1, 2):
@@ -1548,8 +1735,13 @@ def run(ck):
                 except Exception as e:          # generator problem: report, do not hide
                     ck.notes.append('gen_points failed: %r' % (e,))
                     continue
+                unordered = any(f.def_of(i) is not None and any(j >= i for j in f.con_vars(f.def_of(i))) for i in range(len(f.vars)))
                 for p in pts:
                     o = dict(opts)
+                    if unordered and rng.chance(3, 4):
+                        # definitions not ordered by index (e.g. a PL result redefined over lambda variables): the model's
+                        # forward sweep does not apply, so mostly realistic-only modes (the rest is counted 'unordered')
+                        o['mode'] = (o.get('mode', 515) & 31) or 3
                     if p['family'] == 'aux-flip':
                         o['mode'] = rng.choice([3, 3, 2, 19, 515 & 3])
                         o['feastolrel'] = F(0)
@@ -1571,17 +1763,138 @@ def run(ck):
                                 o.pop('round', None)
                                 o.pop('prec', None)
                     code = 0 if rng.chance(1, 2) else rng.choice(SOLVE_CODES)
+                    if any(F(float(v)) != v for v in p['xs']) or (p.get('objv') and any(F(float(v)) != v for v in p['objv'])):
+                        dropped_inexact[0] += 1      # not representable as doubles (e.g. a quotient): outside the exact stream
+                        continue
                     c = {'id': cid, 'stub': lc['stub'], 'm': lc['m'], 'profile': lc['profile'], 'accept': lc['accept'],
                          'base_opts': lc['base_opts'], 'opts': o, 'code': code}
                     c.update(p)
                     cases.append(c)
                     cid += 1
+        for lc in learn:
+            if lc['flat'] is not None and rng.chance(1, 3):
+                cases.append({'id': cid, 'stub': lc['stub'], 'm': lc['m'], 'profile': lc['profile'], 'accept': lc['accept'],
+                              'base_opts': lc['base_opts'], 'opts': gen_options(rng, 'pts'), 'code': rng.choice(SOLVE_CODES),
+                              'family': 'no-primal', 'noprimal': True, 'xs': None, 'objv': None, 'consistent': False})
+                cid += 1
         R.run_cases(cases)
         batches.append(learn + cases)
+    stats['dropped_inexact_points'] = dropped_inexact[0]
+    tl, tc = transc_cases(rng, R)
+    for c in tl + tc:
+        evaluate_transc(ck, c, stats, hist, oracle_bad)
     for batch in batches:
         for c in batch:
             evaluate(ck, c, stats, hist, corr_bad, oracle_bad, distinct)
     finish(ck, proof_ok, failing, stats, hist, corr_bad, oracle_bad, distinct)
+    if coverage:
+        coverage_report(ck, stats, R.arms)
+
+
+# ----------------------------------------------------------------------------------------------- transcendental evaluators (float oracle)
+def fev(e, x):
+    k = e[0]
+    if k == 'n':
+        return float(e[1])
+    if k == 'v':
+        return float(x[e[1]])
+    if k == '+':
+        return fev(e[1], x) + fev(e[2], x)
+    if k == '*':
+        return fev(e[1], x) * fev(e[2], x)
+    if k == 'pow':
+        return fev(e[1], x) ** fev(e[2], x)
+    if k == 'sqrt':
+        return math.sqrt(fev(e[1], x))
+    if k == 'log10':
+        return math.log10(fev(e[1], x))
+    return TFUN[k](fev(e[1], x))
+
+
+def transc_cases(rng, R):
+    """one small model per libm-based evaluator of constr_eval.h (natively accepted, so the expression stays a functional
+    constraint): f(arg) + w <= ub.  Points: planted feasible with the true value of f; w moved so that the row is violated;
+    the solver's value of f off by 1/4 (idealistic bits on).  Expected verdicts need no exact arithmetic: margins >= 0.05."""
+    X, Y, W = 0, 1, 2
+    pos = lambda c: ('*', ('n', c), ('v', X))
+    unit = ('*', ('n', F(1, 2)), ('v', Y))
+    T = [('exp', lambda: ('exp', ('+', ('v', Y), ('n', F(1, 2))))), ('exp-cone', lambda: ('exp', ('+', ('v', Y), ('n', F(1, 2))))), ('log', lambda: ('log', pos(F(2)))),
+         ('log10', lambda: ('log10', pos(F(3)))), ('sqrt', lambda: ('sqrt', pos(F(2)))),
+         ('powc', lambda: ('pow', ('v', X), ('n', F(5, 2)))), ('expa', lambda: ('pow', ('n', F(2)), ('v', Y))),
+         ('sin', lambda: ('sin', ('+', ('v', X), ('v', Y)))), ('cos', lambda: ('cos', pos(F(2)))), ('tan', lambda: ('tan', unit)),
+         ('asin', lambda: ('asin', unit)), ('acos', lambda: ('acos', unit)), ('atan', lambda: ('atan', pos(F(3)))),
+         ('sinh', lambda: ('sinh', ('v', Y))), ('cosh', lambda: ('cosh', ('v', X))), ('tanh', lambda: ('tanh', ('v', Y))),
+         ('asinh', lambda: ('asinh', pos(F(2)))), ('acosh', lambda: ('acosh', ('+', ('v', X), ('n', F(1))))), ('atanh', lambda: ('atanh', unit))]
+    learn = []
+    for k, (nm, mk) in enumerate(T):
+        m = nlgen.Model()
+        m.var(F(1, 2), 3, False, 'x'); m.var(-1, 1, False, 'y'); m.var(-10, 10, False, 'w')
+        m.has_sos = False
+        xs = [F(rng.rint(2, 12), 4), F(rng.rint(-3, 3), 4), F(rng.rint(-8, 8), 4)]
+        nl = mk()
+        val = fev(nl, xs) + float(xs[W])
+        slack = rng.choice([0.0625, 0.5])
+        le = rng.chance(1, 2)
+        if le:
+            m.con(None, F(val + slack), {W: F(1)}, nl)
+        else:
+            m.con(F(val - slack), None, {W: F(1)}, nl)
+        stub = R.write_model(m, 'tr%02d' % k)
+        if nm == 'exp-cone' and not le:
+            le = True
+            m.cons[-1]['lb'], m.cons[-1]['ub'] = None, F(val + slack)
+            stub = R.write_model(m, 'tr%02d' % k)
+        # exp(..)+w <= ub is recognised as an exponential cone when cones are accepted: one variant keeps that (the cone's
+        # violation measure is then what is observed), all others switch the cone off so that the expression stays
+        base = [] if nm == 'exp-cone' else ['acc:expcone=0']
+        learn.append({'id': 800000 + k, 'stub': stub, 'm': m, 'xsm': xs, 'profile': 'transc', 'accept': 'ALL', 'base_opts': base,
+                      'family': 'learn', 'opts': {'mode': 3}, 'consistent': False, 'tname': nm, 'le': le})
+    R.run_cases(learn)
+    cases = []
+    for lc in learn:
+        f, m, xs = lc['flat'], lc['m'], lc['xsm']
+        if f is None or not any('con' in it and it['con'][0] == 'tfunc' for it in f.items):
+            continue
+        tit = next(it for it in f.items if it['con'][0] == 'tfunc')
+        tvar = tit['con'][1]
+        for kind in ('planted', 'row-violated', 'value-off'):
+            if kind == 'value-off' and tit['unused']:
+                continue                      # expression absorbed into a cone: its own value is not checked
+            xm = list(xs)
+            if kind == 'row-violated':
+                xm[W] = xm[W] + (F(3, 4) if lc['le'] else -F(3, 4))
+            x = f.float_point([xm[m.perm[i]] for i in range(3)])
+            if x is None:
+                continue
+            if kind == 'value-off':
+                x[tvar] += 0.25
+            mode = rng.choice([99, 99, 96, 627, 611]) if kind != 'row-violated' else rng.choice([99, 3, 96, 515, 627])
+            cases.append({'id': 810000 + len(cases), 'stub': lc['stub'], 'm': m, 'profile': 'transc', 'accept': 'ALL', 'base_opts': lc['base_opts'],
+                          'opts': {'mode': mode, 'fail': rng.chance(1, 3)}, 'code': 0, 'family': 'transc-' + kind, 'xs': x, 'objv': None,
+                          'consistent': False, 'tname': lc['tname'], 'texpect': kind != 'planted'})
+    R.run_cases(cases)
+    return learn, cases
+
+
+def evaluate_transc(ck, c, stats, hist, oracle_bad):
+    stats['runs'] += 1
+    hist['family'][c['family']] = hist['family'].get(c['family'], 0) + 1
+    f = c['flat']
+    if f is None or f.end is None:
+        stats['no_check'] += 1
+        return
+    for t in f.types:
+        hist['types'][t] = hist['types'].get(t, 0) + 1
+    if 'texpect' not in c:
+        return
+    obs = observed(c)
+    has = obs['text'] is not None
+    stats['float_oracle'] = stats.get('float_oracle', 0) + 1
+    hist['oracle_kind']['transc:' + c['tname']] = hist['oracle_kind'].get('transc:' + c['tname'], 0) + 1
+    if has != c['texpect']:
+        oracle_bad.append((c, {'expect': c['texpect'], 'kind': 'transc-' + c['tname'], 'detail': c['family']}, obs))
+    elif f.chk['fail'] and (obs['code'] == 150) != has:
+        oracle_bad.append((c, {'expect': has, 'kind': 'fail-code', 'detail': 'code %s with report=%s' % (obs['code'], has)}, obs))
 
 
 def load_corpus(R):
@@ -1634,6 +1947,14 @@ def load_corpus(R):
                 case('corp_tol', m2, 'linear', pt, {'mode': 3, 'feastol': e, 'feastolrel': F(0), 'fail': True, 'infeas': inf},
                      'corpus-status')
                 cases[-1]['code'] = code
+    # 3c. root disjunction lost: (k == -7/4) or ((2x >= 5/2) or (k >= 3)) with k integer -> known finding C07-unused-root-constraint
+    m5 = nlgen.Model()
+    x = m5.var(-1, F(7, 4), False, 'x'); k = m5.var(-2, 4, True, 'k')
+    m5.con(None, 10, {x: 1, k: 1})
+    m5.lcon(('or', ('eq', ('v', k), ('n', F(-7, 4))), ('or', ('ge', ('*', ('n', 2), ('v', x)), ('n', F(5, 2))), ('ge', ('v', k), ('n', 3)))))
+    for pt in ([F(-1), F(0)], [F(3, 2), F(0)], [F(0), F(3)]):
+        for mode in (3, 96, 1023 - 12 - 384):
+            case('corp_unusedroot', m5, 'logic', pt, {'mode': mode, 'feastolrel': F(0), 'feastol': F(1, 1024)}, 'corpus-unused-root')
     # 4. piecewise-linear term: <<0,2; -1,1,3>> x + y = 7 (left of the first stored point / between / right)
     m4 = nlgen.Model()
     x = m4.var(-10, 10, False, 'x'); y = m4.var(-100, 100, False, 'y')
@@ -1657,6 +1978,15 @@ def evaluate(ck, c, stats, hist, corr_bad, oracle_bad, distinct):
     bump('family', c['family'])
     bump('profile', c['profile'])
     bump('accept', (c['accept'] or 'default')[:40])
+    if c.get('noprimal'):
+        # no point returned: nothing to check, nothing reported, the solver's status stands
+        stats['no_primal_runs'] = stats.get('no_primal_runs', 0) + 1
+        msg = c.get('sol_msg') or ''
+        if f is not None or HEADER in msg or c.get('sol_code') != c.get('code', 0):
+            oracle_bad.append((c, {'expect': False, 'kind': 'no-primal', 'detail': 'check ran=%s, report=%s, solve code %s (scripted %s)'
+                                   % (f is not None, HEADER in msg, c.get('sol_code'), c.get('code', 0))},
+                               {'ret': None, 'text': observed_text(msg), 'code': c.get('sol_code')}))
+        return
     if f is None:
         stats['no_check'] += 1
         if c.get('xs') is not None:
@@ -1703,7 +2033,7 @@ def evaluate(ck, c, stats, hist, corr_bad, oracle_bad, distinct):
     distinct.add(hashlib.sha1((c['run_stub'] + repr(obs['text']) + obs['ret']).encode()).hexdigest()[:12] if obs['text'] else 'clean:' + str(f.chk['mode']) + c['family'] + c['profile'])
     if obs != pre:
         if not (pre is not None and obs['ret'] == pre['ret'] and obs['code'] == pre['code']
-                and text_matches(obs['text'], md['ideal'], md['real'])):
+                and text_matches(obs['text'], md['ideal'], md['real'], name_ties=has_nondyadic(f))):
             corr_bad.append((c, 'differs', {'observed': obs, 'predicted': pre}))
         else:
             stats['format_boundary'] = stats.get('format_boundary', 0) + 1
@@ -1739,6 +2069,14 @@ def finish(ck, proof_ok, failing, stats, hist, corr_bad, oracle_bad, distinct):
     ck.cov['rule'] = 'distinct = distinct (model run, report text) pairs with a report, plus one per (mode, family, profile) for clean runs'
     ck.cov['histograms'] = hist
     ck.cov['exhaustive'] = False
+    cj = os.path.join(VERIF, 'design_notes', 'coverage', 'C07.json')
+    if os.path.exists(cj):        # measured by the last VERIF_COVERAGE=1 run (committed file; not recomputed here)
+        cv = json.load(open(cj))
+        ck.cov['anchor_line_cov'] = cv['anchor_line_cov']
+        ck.cov['anchor_branch_cov'] = cv['anchor_branch_cov']
+        ck.cov['mechanism_line_cov'] = cv['mechanism_line_cov']
+        ck.cov['mechanism_branch_cov'] = cv['mechanism_branch_cov']
+        ck.cov['coverage_note'] = 'gcov of the anchored files under the quick-tier stream (VERIF_COVERAGE=1, seed %s): design_notes/coverage/C07.md; mechanism_* = functions named in anchors.mechanism' % cv.get('seed')
     ck.log('runs=%d compared=%d unsupported=%d outside=%d no_check=%d oracle=%d (report %d / clean %d) reports=%d code150=%d' % (
         stats['runs'], stats['compared'], stats['unsupported'], stats['outside_fragment'], stats['no_check'], stats['oracle_applied'],
         stats['oracle_expect_report'], stats['oracle_expect_clean'], stats['reports_seen'], stats['code150_seen']))
@@ -1770,6 +2108,11 @@ def finish(ck, proof_ok, failing, stats, hist, corr_bad, oracle_bad, distinct):
                        'ConditionalConstraint(s)' if dk == 'cond' else 'Linear/QuadraticFunctionalConstraint(s)',
                        'ConditionalConstraint::ComputeViolation has no recomp_vals() branch' if dk == 'cond'
                        else 'these constraint types have no ComputeViolation at all (BasicConstraint: {0,0})'))
+        elif orc['kind'] == 'violated' and orc['expect'] and unused_fixed_roots(c['flat']):
+            sig = 'unreported:unused-root-constraint'
+            what = ('violated model (%s) not reported (mode %d): the constraint(s) %s have a fixed result but are marked unused '
+                    '(inlined into an enclosing and/or, then reused through the expression map), so they are neither delivered '
+                    'to the solver nor checked' % (str(orc['detail'])[:120], c['flat'].chk['mode'], unused_fixed_roots(c['flat'])[:4]))
         elif orc['kind'] == 'feasible' and not orc['expect'] and ctx_none_items(c['flat']):
             sig = 'spurious-report:ctx-none'
             what = ('the point satisfies the original model exactly, yet the check reports:\n%s\nfunctional constraint(s) %s have '
@@ -1819,7 +2162,8 @@ def replay(ck, path):
     R = Runner(ck, exe, drv, work)
     stub = os.path.join(work, 'rp')
     for ext in ('nl', 'col', 'row'):
-        open(stub + '.' + ext, 'w').write(rp[ext])
+        if rp.get(ext) is not None:
+            open(stub + '.' + ext, 'w').write(rp[ext])
     c = {'id': 0, 'stub': stub, 'accept': rp.get('accept'), 'base_opts': rp.get('options') or [], 'opts': {},
          'xs': [F(t) for t in rp['x']] if rp.get('x') else None, 'objv': [F(t) for t in rp['obj']] if rp.get('obj') else None,
          'code': rp.get('code', 0), 'family': 'replay', 'profile': rp.get('profile')}
@@ -1829,3 +2173,245 @@ def replay(ck, path):
     print('predicted:', json.dumps(predicted(c), indent=1))
     print('model    :', c.get('model_line'))
     return 0 if obs == predicted(c) else 1
+
+
+# ----------------------------------------------------------------------------------------------- coverage mode (VERIF_COVERAGE=1)
+COVDIR = os.path.join(BUILD, 'c07cov')
+ANCHOR_FILES = ['include/mp/flat/sol_check.h', 'include/mp/flat/constr_eval.h', 'include/mp/flat/constr_keeper.h',
+                'include/mp/flat/constr_algebraic.h', 'include/mp/flat/constr_base.h', 'include/mp/flat/constr_general.h',
+                'include/mp/flat/converter.h', 'include/mp/valcvt.h', 'include/mp/backend-std.h']
+EXTRA_FILES = ['include/mp/flat/backend_flat.h', 'include/mp/flat/constr_functional.h', 'include/mp/flat/expr_quadratic.h',
+               'include/mp/flat/expr_affine.h', 'include/mp/flat/obj_std.h']
+# (file, regex on the demangled function name) of the functions named in anchors.mechanism
+MECHANISMS = [
+    ('per-type value evaluation (ComputeValue overloads)', 'include/mp/flat/constr_eval.h', r'ComputeValue|ComputeViolation'),
+    ('violation measure / tolerance test', 'include/mp/flat/constr_base.h', r'Violation::Check|ComputeViolation'),
+    ('violation measure (algebraic)', 'include/mp/flat/constr_algebraic.h', r'ComputeViolation|is_valid'),
+    ('violation measure (indicator, SOS, complementarity)', 'include/mp/flat/constr_general.h', r'ComputeViolation'),
+    ('ViolSummary, VarVecRecomp, VarInfoImpl, SolCheck, ConstraintKeeper::ComputeViolations/ComputeValue', 'include/mp/flat/constr_keeper.h',
+     r'ViolSummary::|VarVecRecomp::|VarInfoImpl<|SolCheck::|::ComputeViolations|ConstraintKeeper<.*>::ComputeValue'),
+    ('SolutionChecker (CheckSolution, RecomputeAuxVars, DoCheckSol, CheckVars/Cons/Objs, report)', 'include/mp/flat/sol_check.h', r'.'),
+    ('hook into postsolve', 'include/mp/valcvt.h', r'ValuePresolver::PostsolveSolution'),
+    ('hook: checker lambda and option accessors', 'include/mp/flat/converter.h', r'sol_check|sol_feas|sol_int_tol|sol_round|sol_prec|lambda'),
+    ('status predicates feeding the check', 'include/mp/backend-std.h', r'IsProblemInfeasible|IsProblemInfOrUnb|IsProblemUnbounded|IsProblemIndiffInfOrUnb'),
+    ('GetSolution (flag passed to the check)', 'include/mp/flat/backend_flat.h', r'GetSolution'),
+]
+
+
+def build_cov_solver(ck):
+    """harness TUs (the only ones instantiating the anchored headers) compiled with --coverage -O0 into build/c07cov"""
+    from concurrent.futures import ThreadPoolExecutor as TPE
+    os.makedirs(COVDIR, exist_ok=True)
+    for f in os.listdir(COVDIR):
+        if f.endswith('.gcda'):
+            os.remove(os.path.join(COVDIR, f))
+    srcs = [os.path.join(RD, f) for f in ['recmain.cc', 'recmodelapi.cc', 'recbackend.cc']] + [os.path.join(CD, 'c07modelmgr.cc')]
+    inc = ['-I' + os.path.join(REPO, 'include'), '-I' + os.path.join(REPO, 'src'), '-I' + os.path.join(VERIF, 'harness'), '-I' + RD]
+    defs = ['-DNDEBUG', '-DMP_DATE=20240320', '-DMP_SYSINFO="Linux x86_64"', '-DMP_USE_ATOMIC', '-DMP_USE_HASH',
+            '-DMP_USE_UNIQUE_PTR', '-DAMPL_MP_VERIF']
+    stamp = hashlib.sha256()
+
+    def one(src):
+        obj = os.path.join(COVDIR, os.path.basename(src).replace('.cc', '.o'))
+        cmd = ['g++', '-std=c++17', '-w', '--coverage', '-O0', '-g'] + defs + inc
+        rc, out, err = sh(cmd + ['-E', '-P', src], timeout=900)
+        if rc != 0:
+            raise RuntimeError(err[-2000:])
+        h = hashlib.sha256(out.encode()).hexdigest()
+        hf = obj + '.hash'
+        if not (os.path.exists(obj) and os.path.exists(hf) and open(hf).read() == h and os.path.exists(obj[:-2] + '.gcno')):
+            rc, out, err = sh(cmd + ['-c', src, '-o', obj], timeout=3000)
+            if rc != 0:
+                raise RuntimeError(err[-3000:])
+            open(hf, 'w').write(h)
+        return obj
+    with TPE(max_workers=4) as ex:
+        objs = list(ex.map(one, srcs))
+    exe = os.path.join(COVDIR, 'c07solver_cov')
+    rc, out, err = sh(['g++', '--coverage'] + objs + ck.libmp_objects(flags=('-O1', '-g')) + ['-o', exe, '-ldl'], timeout=1800)
+    if rc != 0:
+        raise RuntimeError(err[-3000:])
+    return exe
+
+
+def gcov_json(tu_src):
+    rc, out, err = sh(['gcov-12', '-b', '-c', '--json-format', '--stdout', '-o', COVDIR, tu_src], cwd=COVDIR, timeout=1800)
+    docs = []
+    dec = json.JSONDecoder()
+    i = 0
+    while i < len(out):
+        j = out.find('{', i)
+        if j < 0:
+            break
+        try:
+            d, k = dec.raw_decode(out, j)
+            docs.append(d)
+            i = k
+        except ValueError:
+            i = j + 1
+    return docs
+
+
+def demangle(names):
+    if not names:
+        return {}
+    p = subprocess.run(['c++filt'], input='\n'.join(names) + '\n', capture_output=True, text=True)
+    return dict(zip(names, p.stdout.split('\n')))
+
+
+def arms_universe():
+    chk = ['chk:ninf', 'chk:pinf', 'chk:exceeds-abs,ref=0', 'chk:epsrel-inf', 'chk:exceeds-both', 'chk:within-rel', 'chk:within-abs']
+    U = set(chk) - {'chk:epsrel-inf'}            # epsrel = INFINITY is no longer passed by any caller (since /repo 1797720)
+    for k, pats in (('range', ['both:below', 'both:above', 'both:inside', 'lo:below', 'lo:ok', 'hi:above', 'hi:ok']),
+                    ('le', ['hi:above', 'hi:ok']), ('ge', ['lo:below', 'lo:ok']), ('eq', ['both:below', 'both:above', 'both:inside'])):
+        U |= {'alg:%s:%s' % (k, p_) for p_ in pats}
+    kinds = ['val:max', 'val:min', 'val:abs', 'val:and=0', 'val:and=1', 'val:or=0', 'val:or=1', 'val:not=0', 'val:not=1', 'val:div',
+             'val:ifthen:then', 'val:ifthen:else', 'val:impl:then=0', 'val:impl:then=1', 'val:impl:else=0', 'val:impl:else=1',
+             'val:alldiff=0', 'val:alldiff=1', 'val:numberofConst:int-hit', 'val:numberofConst:tol-hit', 'val:numberofConst:no-hit',
+             'val:numberofVar:int-hit', 'val:numberofVar:tol-hit', 'val:numberofVar:no-hit', 'val:count', 'val:pl:left', 'val:pl:right',
+             'val:pl:at-point', 'val:pl:interpolate', 'val:pow']
+    for ctx in ('pos', 'neg', 'mix', 'none'):
+        U.add('func:%s' % ctx)
+    U |= set(kinds)
+    U |= {'recomp:' + k_ for k_ in kinds + ['val:affine', 'val:quadratic'] + ['val:cond:%s=%d' % (r_, v_) for r_ in ('lt', 'le', 'eq', 'ge', 'gt') for v_ in (0, 1)]}
+    U |= {'recomp:no-init', 'recomp:init-unused-or-not-functional', 'func:recomp', 'cond:recomp', 'adef:never-tested'}
+    U |= {'cond:%s:b=%d:valid=%d' % (c_, b_, v_) for c_ in ('pos', 'neg', 'mix') for b_ in (0, 1) for v_ in (0, 1)} | {'cond:none:b=0:valid=0', 'cond:none:b=0:valid=1', 'cond:none:b=1:valid=0', 'cond:none:b=1:valid=1'}
+    U |= {'ind:active', 'ind:inactive', 'sos1:nnz=0', 'sos1:nnz=1', 'sos1:nnz=2', 'sos1:nnz=3', 'sos2:npos=0', 'sos2:npos=1',
+          'sos2:npos=2:adjacent', 'sos2:npos=2:apart', 'sos2:npos=3:adjacent', 'sos2:npos=3:apart', 'compl:at-lb', 'compl:at-ub', 'compl:inside'}
+    U |= {'item:unused'} | {'item:class%d:not-selected' % c_ for c_ in (2, 4, 8, 10)} | {'item:class2:slot0', 'item:class10:slot0', 'item:class4:slot1', 'item:class8:slot2'}
+    U |= {'vars-off', 'cons-off', 'obj-off', 'obj:none', 'real:off', 'ideal:off', 'round:nonneg', 'round:neg', 'round:off', 'prec:on', 'prec:off',
+          'outcome:skipped', 'outcome:known-infeasible-but-checked', 'outcome:checked', 'fail:150', 'fail:warning', 'fail:no-report'}
+    for tag in ('var-bounds', 'aux-bounds', 'var-int', 'aux-int', 'obj'):
+        for c_ in (['chk:within-abs', 'chk:exceeds-both', 'chk:exceeds-abs,ref=0'] + ([] if 'int' in tag else ['chk:within-rel']) + (['chk:ninf'] if 'bounds' in tag else [])):
+            U.add(tag + '|' + c_)
+    return U
+
+
+def norm_arm(a):
+    # func:<ctx>:<kind arm>  ->  components 'func:<ctx>' and the kind arm
+    return a
+
+
+def coverage_report(ck, stats, arms=None):
+    files = {}      # relpath -> {'lines': {ln: count}, 'branches': {(ln, k): count}, 'funcs': {name: (start, end, count)}}
+    for tu in ('c07modelmgr.cc', 'recbackend.cc'):
+        src = os.path.join(CD if tu.startswith('c07') else RD, tu)
+        for doc in gcov_json(src):
+            for f in doc.get('files', []):
+                path = os.path.normpath(os.path.join(COVDIR, f['file'])) if not os.path.isabs(f['file']) else os.path.normpath(f['file'])
+                if not path.startswith(os.path.normpath(REPO) + os.sep):
+                    continue
+                rel = os.path.relpath(path, REPO)
+                if rel not in ANCHOR_FILES + EXTRA_FILES:
+                    continue
+                e = files.setdefault(rel, {'lines': {}, 'branches': {}, 'funcs': {}})
+                for fn in f.get('functions', []):
+                    nm = fn.get('demangled_name') or fn['name']
+                    o = e['funcs'].get(nm)
+                    cnt = fn.get('execution_count', 0) + (o[2] if o else 0)
+                    e['funcs'][nm] = (fn['start_line'], fn['end_line'], cnt)
+                for ln in f.get('lines', []):
+                    n = ln['line_number']
+                    e['lines'][n] = e['lines'].get(n, 0) + ln.get('count', 0)
+                    for k, br in enumerate(ln.get('branches', [])):
+                        if br.get('throw'):
+                            continue           # exceptional edges of calls
+                        e['branches'][(n, k)] = e['branches'].get((n, k), 0) + br.get('count', 0)
+    summary = {}
+    L = ['# C07 — coverage of the anchored code by the quick-tier input stream', '',
+         'Produced by `VERIF_COVERAGE=1 ./check C07` (seed %d): the harness TUs that instantiate the anchored headers are built with' % ck.seed,
+         '`--coverage -O0`, the quick-tier stream (%d runs, %d compared) is run through that binary, `gcov-12 -b -c --json-format`.' % (stats['runs'], stats['compared']),
+         'Lines/branches of template code are merged over all instantiations; exceptional (`throw`) edges of calls are not counted as branches.', '']
+    L += ['| file | lines | line cov | branches | branch cov |', '|---|---|---|---|---|']
+    tl = tc = tb = tbc = 0
+    for rel in ANCHOR_FILES + EXTRA_FILES:
+        e = files.get(rel)
+        if not e:
+            L.append('| %s | (not instantiated by the harness) | | | |' % rel)
+            continue
+        nl, nc = len(e['lines']), sum(1 for c in e['lines'].values() if c > 0)
+        nb, nbc = len(e['branches']), sum(1 for c in e['branches'].values() if c > 0)
+        summary[rel] = {'lines': nl, 'lines_hit': nc, 'branches': nb, 'branches_hit': nbc}
+        if rel in ANCHOR_FILES:
+            tl, tc, tb, tbc = tl + nl, tc + nc, tb + nb, tbc + nbc
+        L.append('| %s%s | %d | %.1f%% | %d | %.1f%% |' % (rel, '' if rel in ANCHOR_FILES else ' (not an anchor, relevant)', nl, 100.0 * nc / max(nl, 1), nb, 100.0 * nbc / max(nb, 1)))
+    L += ['', 'Whole-file numbers for converter.h, constr_keeper.h, valcvt.h, backend-std.h are dominated by code that has nothing to do',
+          'with the solution check (conversion, presolve links, suffix I/O); the mechanism table below is the relevant one.', '']
+    mech = {}
+    ml = mlc = mb = mbc = 0
+    L += ['## Mechanism functions', '', '| mechanism | functions | uncalled | lines | line cov | branches | branch cov |', '|---|---|---|---|---|---|---|']
+    details = []
+    for title, rel, rx in MECHANISMS:
+        e = files.get(rel)
+        if not e:
+            L.append('| %s (%s) | not instantiated | | | | | |' % (title, rel))
+            continue
+        R_ = re.compile(rx)
+        fs0 = {nm: v for nm, v in e['funcs'].items() if R_.search(nm)}
+        # one source function = all instantiations starting at the same line
+        fs = {}
+        for nm, (a, b, cnt) in fs0.items():
+            o = fs.get(a)
+            short = re.sub(r'\[with .*', '', nm)
+            fs[a] = (a, max(b, o[1]) if o else b, cnt + (o[2] if o else 0), min([short] + ([o[3]] if o else []), key=len))
+        fs = {'%s @%d' % (v[3][:140], a): (v[0], v[1], v[2]) for a, v in fs.items()}
+        ranges = [(a, b) for a, b, _ in fs.values()]
+        inr = lambda n: any(a <= n <= b for a, b in ranges)
+        lines = {n: c for n, c in e['lines'].items() if inr(n)}
+        brs = {k: c for k, c in e['branches'].items() if inr(k[0])}
+        uncalled = sorted(nm for nm, v in fs.items() if v[2] == 0)
+        nl, nc, nb, nbc = len(lines), sum(1 for c in lines.values() if c > 0), len(brs), sum(1 for c in brs.values() if c > 0)
+        ml, mlc, mb, mbc = ml + nl, mlc + nc, mb + nb, mbc + nbc
+        mech[title] = {'file': rel, 'functions': len(fs), 'uncalled': len(uncalled), 'lines': nl, 'lines_hit': nc, 'branches': nb, 'branches_hit': nbc}
+        L.append('| %s (%s) | %d | %d | %d | %.1f%% | %d | %.1f%% |' % (title, os.path.basename(rel), len(fs), len(uncalled), nl, 100.0 * nc / max(nl, 1), nb, 100.0 * nbc / max(nb, 1)))
+        src = open(os.path.join(REPO, rel)).read().split('\n')
+        details.append('### %s — %s' % (title, rel))
+        if uncalled:
+            details.append('uncalled functions:')
+            for nm in uncalled:
+                details.append('* `%s` (line %d)' % (nm[:160], fs[nm][0]))
+        unl = sorted(n for n, c in lines.items() if c == 0 and not any(fs[nm][0] <= n <= fs[nm][1] for nm in uncalled))
+        if unl:
+            details.append('uncovered lines inside called functions:')
+            for n in unl:
+                details.append('* %d: `%s`' % (n, src[n - 1].strip()[:110]))
+        unb = sorted({k[0] for k, c in brs.items() if c == 0 and lines.get(k[0], 0) > 0})
+        if unb:
+            details.append('lines with a branch direction never taken (line itself executed):')
+            for n in unb:
+                miss = [k[1] for k, c in brs.items() if k[0] == n and c == 0]
+                details.append('* %d (branch %s): `%s`' % (n, ','.join(map(str, miss)), src[n - 1].strip()[:110]))
+        details.append('')
+    L += ['', '**mechanism total: lines %.1f%% (%d/%d), branches %.1f%% (%d/%d)**' % (100.0 * mlc / max(ml, 1), mlc, ml, 100.0 * mbc / max(mb, 1), mbc, mb), '']
+    L += ['## Details (uncovered items inside the mechanisms)', ''] + details
+    arm_js = None
+    if arms is not None:
+        taken = {}
+        for a, n in arms.items():
+            if a in ('real', 'ideal', ''):
+                continue
+            if a.startswith('func:') and a.count(':') >= 2 and not a.startswith('func:recomp'):
+                ctx, kind = a.split(':', 2)[1], a.split(':', 2)[2]
+                taken['func:' + ctx] = taken.get('func:' + ctx, 0) + n
+                taken[kind] = taken.get(kind, 0) + n
+            else:
+                taken[a] = taken.get(a, 0) + n
+        U = arms_universe()
+        never = sorted(U - set(taken))
+        extra = sorted(set(taken) - U)
+        L += ['## Model branches (Lean `match`/`if` arms) exercised by the same stream', '',
+              'Instrumentation `lean/MpVerif/C07/Arms.lean` (driver op `arms`), counted per compared run; %d of %d listed arms taken.' % (len(U) - len(never), len(U)), '',
+              '**never taken:** ' + (', '.join('`%s`' % a for a in never) or '(none)'), '',
+              'taken (count of runs x items): ' + ', '.join('`%s` %d' % (a, taken[a]) for a in sorted(taken) if a in U), '']
+        if extra:
+            L += ['arms outside the list: ' + ', '.join('`%s` %d' % (a, taken[a]) for a in extra), '']
+        arm_js = {'listed': len(U), 'taken': len(U) - len(never), 'never': never}
+    os.makedirs(os.path.join(VERIF, 'design_notes', 'coverage'), exist_ok=True)
+    auto = os.path.join(VERIF, 'design_notes', 'coverage', 'C07.auto.md')
+    open(auto, 'w').write('\n'.join(L) + '\n')
+    js = {'seed': ck.seed, 'runs': stats['runs'], 'anchor_line_cov': round(100.0 * tc / max(tl, 1), 1), 'anchor_branch_cov': round(100.0 * tbc / max(tb, 1), 1),
+          'mechanism_line_cov': round(100.0 * mlc / max(ml, 1), 1), 'mechanism_branch_cov': round(100.0 * mbc / max(mb, 1), 1),
+          'files': summary, 'mechanisms': mech, 'model_arms': arm_js}
+    json.dump(js, open(os.path.join(VERIF, 'design_notes', 'coverage', 'C07.json'), 'w'), indent=1)
+    ck.log('coverage: anchors lines %.1f%% branches %.1f%%; mechanisms lines %.1f%% branches %.1f%% -> %s' % (
+        js['anchor_line_cov'], js['anchor_branch_cov'], js['mechanism_line_cov'], js['mechanism_branch_cov'], auto))
